@@ -54,10 +54,14 @@ def main():
         good = (np.zeros((2, 3), "float32"), np.zeros((3,), "float32"))
         bad = (np.zeros((2, 3), "float32"), np.zeros((4,), "float32"))
 
+        FLIP = [None]         # when set: the function body itself flips the switch to this value (a decorated `set_checking` helper)
+
         def mk_plain():
             calls = []
 
             def f(x: Float[A, "a b"], y: Float[A, "b"]) -> Float[A, "a"]:
+                if FLIP[0] is not None:
+                    config.update("jaxtyping_disable", FLIP[0])
                 calls.append((id(x), id(y)))
                 try:
                     inner = isinstance(np.zeros((7,), "float32"), Float[A, "a"])     # manual check inside the body
@@ -96,19 +100,29 @@ def main():
             kinds["new-" + tcn] = new; kinds["ntc_above-" + tcn] = ntc_above; kinds["ntc_below-" + tcn] = ntc_below
             kinds["method-" + tcn] = method; kinds["dataclass-" + tcn] = dc
 
-        def compare(wrapped, plain, args, calls):
+        from jaxtyping._storage import _shape_storage
+
+        def compare(wrapped, plain, args, calls, flip=False):
+            initial = bool(config.jaxtyping_disable)
+            depth0 = len(getattr(_shape_storage, "memo_stack", []))
             n0 = len(calls) if calls is not None else 0
+            FLIP[0] = (not initial) if flip else None
             a = outcome_of(wrapped, *args)
+            config.update("jaxtyping_disable", initial)
+            depth1 = len(getattr(_shape_storage, "memo_stack", []))
+            encl = sorted(get_shape_memo()[0].items()) if depth1 else None
             wcalls = list(calls[n0:]) if calls is not None else []
             n1 = len(calls) if calls is not None else 0
             b = outcome_of(plain, *args)
+            config.update("jaxtyping_disable", initial)
+            FLIP[0] = None
             pcalls = list(calls[n1:]) if calls is not None else []
             same = a[:2] == b[:2]
             if a[0] == "ret" and dataclasses.is_dataclass(a[2]):
                 same = (b[0] == "ret") and all(getattr(a[2], k) is getattr(b[2], k) for k in ("x", "y"))
             elif a[0] == "ret" and b[0] == "ret":
                 same = same and np.array_equal(a[2], b[2])
-            return {"wrapped": a[:2], "plain": b[:2], "same": bool(same),
+            return {"wrapped": a[:2], "plain": b[:2], "same": bool(same), "depth": [depth0, depth1], "enclosing": encl,
                     "body_runs_wrapped": sum(1 for x in wcalls if x[0] != "inner"), "body_runs_plain": sum(1 for x in pcalls if x[0] != "inner"),
                     "inner_wrapped": [(x[1], x[2]) for x in wcalls if x[0] == "inner"], "inner_plain": [(x[1], x[2]) for x in pcalls if x[0] == "inner"]}
 
@@ -129,7 +143,7 @@ def main():
                         with jaxtyped("context"):
                             # an enclosing context that binds a=9: a transparent call must see it from a manual check
                             isinstance(np.zeros((9,), "float32"), Float[A, "a"])
-                            box.append(compare(wrapped, plain, args, calls))
+                            box.append(compare(wrapped, plain, args, calls, flip=(len(op) > 2 and op[2] == "flip")))
                     box = []
                     if len(op) > 2 and op[2] == "thread":
                         # the call is made from ANOTHER thread, started after the last toggle: the switch is process-wide
@@ -139,7 +153,7 @@ def main():
                         do_call(box)
                     c = box[0] if box else {"wrapped": ["thread-died"], "plain": ["?"], "same": False, "body_runs_wrapped": 0, "body_runs_plain": 0, "inner_wrapped": [], "inner_plain": []}
                     c["flag"] = bool(config.jaxtyping_disable)
-                    c["thread"] = len(op) > 2
+                    c["thread"] = len(op) > 2 and op[2] == "thread"
                     steps.append(c)
                 res.append({"kind": kname, "steps": steps})
         config.update("jaxtyping_disable", False)
